@@ -81,9 +81,10 @@ Cmp(c, x, y) ==
 SortedBy(s, c) == \A i \in 1..Len(s) - 1 : Cmp(c, s[i], s[i+1]) <= 0
 Distinct(s, c) == \A i \in 1..Len(s) : \A j \in i+1..Len(s) : Cmp(c, s[i], s[j]) # 0
 
-\* TLC keeps [i \in S |-> e] lazy and re-evaluates e at every application; E
-\* forces the explicit function / sequence once.
-E(x) == TLCEval(x)
+\* TLC keeps [i \in S |-> e] lazy and re-evaluates e at every application;
+\* TLCEval forces the explicit function / sequence once.  (It is applied
+\* directly: TLC does not cache a constant definition whose body applies a
+\* user-defined wrapper around it.)
 
 RECURSIVE InsertBefore(_, _, _)
 InsertBefore(x, t, c) ==
@@ -92,7 +93,7 @@ InsertBefore(x, t, c) ==
   ELSE <<t[1]>> \o InsertBefore(x, Tail(t), c)
 RECURSIVE StableSortR(_, _)
 StableSortR(s, c) == IF s = <<>> THEN <<>> ELSE InsertBefore(s[1], StableSortR(Tail(s), c), c)
-StableSort(s, c) == StableSortR(E(s), c)
+StableSort(s, c) == StableSortR(TLCEval(s), c)
 
 RECURSIVE Concat(_)
 Concat(ss) == IF ss = <<>> THEN <<>> ELSE ss[1] \o Concat(Tail(ss))
@@ -117,14 +118,14 @@ Offsets(lay, acc) == IF lay = <<>> THEN <<>> ELSE <<acc>> \o Offsets(Tail(lay), 
 \* rows of every object, each object sorted by the pool's ImportComparator
 ObjRows(lay, desc) ==
   LET off == Offsets(lay, 0)
-  IN E([i \in 1..Len(lay) |-> StableSort(E([j \in 1..Len(lay[i]) |-> MkRow(lay[i][j], off[i] + j)]), PoolC(desc))])
+  IN TLCEval([i \in 1..Len(lay) |-> StableSort(TLCEval([j \in 1..Len(lay[i]) |-> MkRow(lay[i][j], off[i] + j)]), PoolC(desc))])
 
 \* lake/data/writer.go: Min/Max are the first/last key (missing as null), swapped
 \* for desc pools: Min <= Max in the ascending nulls-max order.
 KeyOf(r) == IF Nullish(r["k"]) THEN NULL ELSE r["k"]
 Metas(lay, desc) ==
   LET rows == ObjRows(lay, desc)
-  IN E([i \in 1..Len(lay) |->
+  IN TLCEval([i \in 1..Len(lay) |->
         LET f == KeyOf(rows[i][1])  l == KeyOf(rows[i][Len(rows[i])])
         IN IF desc THEN [mn |-> l, mx |-> f] ELSE [mn |-> f, mx |-> l]])
 
@@ -349,7 +350,7 @@ RECURSIVE LeadFilters(_)
 LeadFilters(ops) == IF ops # <<>> /\ Kind(ops[1]) = "filter" THEN <<ops[1]>> \o LeadFilters(Tail(ops)) ELSE <<>>
 
 PO(op, part) == [op |-> op, part |-> part]          \* part: "" | "out" | "in"
-Plain(ops) == E([i \in 1..Len(ops) |-> PO(ops[i], "")])
+Plain(ops) == TLCEval([i \in 1..Len(ops) |-> PO(ops[i], "")])
 
 \* optimizer.go optimizeSourcePaths + Parallelize + parallelizeSeqScan + one
 \* liftIntoParPaths at the scatter (optimizeParallels visits each position once).
@@ -385,9 +386,9 @@ PlanOf(prog, desc) ==
 
 PlanText(pl) ==
   [slicer |-> pl.slicer, filter |-> pl.filter,
-   legs |-> E([i \in 1..Len(pl.legs) |-> pl.legs[i].op \o (IF pl.legs[i].part = "" THEN "" ELSE ":" \o pl.legs[i].part)]),
+   legs |-> TLCEval([i \in 1..Len(pl.legs) |-> pl.legs[i].op \o (IF pl.legs[i].part = "" THEN "" ELSE ":" \o pl.legs[i].part)]),
    fan |-> pl.fan, mkey |-> pl.mc.f, mdesc |-> pl.mc.desc,
-   tail |-> E([i \in 1..Len(pl.tail) |-> pl.tail[i].op \o (IF pl.tail[i].part = "" THEN "" ELSE ":" \o pl.tail[i].part)])]
+   tail |-> TLCEval([i \in 1..Len(pl.tail) |-> pl.tail[i].op \o (IF pl.tail[i].part = "" THEN "" ELSE ":" \o pl.tail[i].part)])]
 
 \* ================================================================ semantics
 \* A stream is [s, ex, by, det]: a representative sequence; ex = the program
@@ -439,7 +440,7 @@ SortInts(s) == IF s = <<>> THEN <<>> ELSE InsertInt(s[1], SortInts(Tail(s)))
 
 AggKind(op) == CASE op \in {"AG", "AK", "A0s"} -> "count" [] op \in {"XG", "XK", "X0s"} -> "sum"
                  [] op = "VG" -> "avg" [] op = "LG" -> "collect" [] op = "UK" -> "union"
-Ints(rows, f) == LET sel == SelectSeq(rows, LAMBDA r : Get(r, f).t = "int") IN E([i \in 1..Len(sel) |-> Get(sel[i], f).n])
+Ints(rows, f) == LET sel == SelectSeq(rows, LAMBDA r : Get(r, f).t = "int") IN TLCEval([i \in 1..Len(sel) |-> Get(sel[i], f).n])
 AggOf(op, rows) ==
   CASE AggKind(op) = "count"   -> U(Len(rows))
     [] AggKind(op) = "sum"     -> LET xs == Ints(rows, "x") IN IF xs = <<>> THEN NULL ELSE I(SumSeq(xs))
@@ -448,11 +449,11 @@ AggOf(op, rows) ==
     [] AggKind(op) = "union"   -> V("set", {Get(rows[i], "g") : i \in 1..Len(rows)} \ {EMISS, NULL})
 \* agg.Function.ConsumeAsPartial over the partial values of one group
 AggCombine(op, parts) ==
-  CASE AggKind(op) = "count"   -> U(SumSeq(E([i \in 1..Len(parts) |-> parts[i].n])))
+  CASE AggKind(op) = "count"   -> U(SumSeq(TLCEval([i \in 1..Len(parts) |-> parts[i].n])))
     [] AggKind(op) = "sum"     -> LET xs == SelectSeq(parts, LAMBDA p : p.t = "int")
-                                  IN IF xs = <<>> THEN NULL ELSE I(SumSeq(E([i \in 1..Len(xs) |-> xs[i].n])))
-    [] AggKind(op) = "avg"     -> V("avg", <<SumSeq(E([i \in 1..Len(parts) |-> parts[i].n[1]])), SumSeq(E([i \in 1..Len(parts) |-> parts[i].n[2]]))>>)
-    [] AggKind(op) = "collect" -> V("bag", SortInts(Concat(E([i \in 1..Len(parts) |-> parts[i].n]))))
+                                  IN IF xs = <<>> THEN NULL ELSE I(SumSeq(TLCEval([i \in 1..Len(xs) |-> xs[i].n])))
+    [] AggKind(op) = "avg"     -> V("avg", <<SumSeq(TLCEval([i \in 1..Len(parts) |-> parts[i].n[1]])), SumSeq(TLCEval([i \in 1..Len(parts) |-> parts[i].n[2]]))>>)
+    [] AggKind(op) = "collect" -> V("bag", SortInts(Concat(TLCEval([i \in 1..Len(parts) |-> parts[i].n]))))
     [] AggKind(op) = "union"   -> V("set", UNION {parts[i].n : i \in 1..Len(parts)})
 
 \* distinct group keys in order of first appearance
@@ -470,26 +471,26 @@ Summarize(o, st) ==
       rows == st.s
       out  == IF kf = "" THEN
                  IF rows = <<>> THEN <<>>
-                 ELSE <<[Row0 EXCEPT !["a"] = IF o.part = "in" THEN AggCombine(o.op, E([i \in 1..Len(rows) |-> rows[i]["a"]]))
+                 ELSE <<[Row0 EXCEPT !["a"] = IF o.part = "in" THEN AggCombine(o.op, TLCEval([i \in 1..Len(rows) |-> rows[i]["a"]]))
                                                 ELSE AggOf(o.op, rows)]>>
               ELSE LET ks == FirstKeys(rows, kf, {})
-                   IN E([i \in 1..Len(ks) |->
+                   IN TLCEval([i \in 1..Len(ks) |->
                          LET grp == SelectSeq(rows, LAMBDA r : Get(r, kf) = ks[i])
                          IN [Row0 EXCEPT ![kf] = ks[i],
-                                         !["a"] = IF o.part = "in" THEN AggCombine(o.op, E([j \in 1..Len(grp) |-> grp[j]["a"]]))
+                                         !["a"] = IF o.part = "in" THEN AggCombine(o.op, TLCEval([j \in 1..Len(grp) |-> grp[j]["a"]]))
                                                   ELSE AggOf(o.op, grp)]])
       streaming == kf # "" /\ st.by # NoCmp /\ st.by.f = kf
       byk  == IF streaming THEN [st.by EXCEPT !.tb = FALSE] ELSE NoCmp
       srt  == IF streaming THEN StableSort(out, byk) ELSE out
   IN Stream(srt, streaming /\ Distinct(srt, byk), byk, st.det)
 
-Uniq(s) == SelectSeq(E([i \in 1..Len(s) |-> [r |-> s[i], keep |-> i = 1 \/ s[i] # s[i-1]]]), LAMBDA e : e.keep)
+Uniq(s) == SelectSeq(TLCEval([i \in 1..Len(s) |-> [r |-> s[i], keep |-> i = 1 \/ s[i] # s[i-1]]]), LAMBDA e : e.keep)
 
 ApplyOp(o, st) ==
   LET op == o.op  s == st.s IN
   CASE Kind(op) = "filter" -> Stream(SelectSeq(s, LAMBDA r : PredT(op, r)), st.ex, st.by, st.det)
     [] Kind(op) \in {"cut", "put", "rename", "drop", "yield"} ->
-         Stream(E([i \in 1..Len(s) |-> MapRow(op, s[i])]), st.ex, MapBy(op, st.by), st.det)
+         Stream(TLCEval([i \in 1..Len(s) |-> MapRow(op, s[i])]), st.ex, MapBy(op, st.by), st.det)
     [] Kind(op) = "sort" ->
          LET c == SortC(SortKeyOf(op).f, SortKeyOf(op).desc)  t == StableSort(s, c)
          IN Stream(t, Distinct(t, c), c, st.det)
@@ -502,7 +503,7 @@ ApplyOp(o, st) ==
              cutok == st.ex \/ m <= n \/ (st.by # NoCmp /\ Cmp(st.by, s[m-n], s[m-n+1]) # 0)
          IN Stream(SubSeq(s, IF m <= n THEN 1 ELSE m - n + 1, m), st.ex, st.by, st.det /\ cutok)
     [] Kind(op) = "uniq" ->
-         LET t == Uniq(s) IN Stream(E([i \in 1..Len(t) |-> t[i].r]), st.ex, st.by, st.det /\ st.ex)
+         LET t == Uniq(s) IN Stream(TLCEval([i \in 1..Len(t) |-> t[i].r]), st.ex, st.by, st.det /\ st.ex)
     [] Kind(op) = "summarize" -> Summarize(o, st)
 
 RECURSIVE ApplyOps(_, _)
@@ -511,11 +512,11 @@ ApplyOps(ops, st) == IF ops = <<>> THEN st ELSE ApplyOps(Tail(ops), ApplyOp(ops[
 \* ---- scanning.  A partition's objects are merged with the ImportComparator
 \* (sequence.go newObjectsScanner); the pushed-down filter is applied in the scan.
 PartRows(rows, part, desc, filter) ==
-  SelectSeq(StableSort(Concat(E([i \in 1..Len(part) |-> rows[part[i]]])), PoolC(desc)), LAMBDA r : Keep(filter, r))
+  SelectSeq(StableSort(Concat(TLCEval([i \in 1..Len(part) |-> rows[part[i]]])), PoolC(desc)), LAMBDA r : Keep(filter, r))
 
 \* the input of one consumer that received the partitions ps, in that order
 ScanStream(rows, ps, desc, filter, slicer) ==
-  Stream(Concat(E([i \in 1..Len(ps) |-> PartRows(rows, ps[i], desc, filter)])), slicer, IF slicer THEN PoolC(desc) ELSE NoCmp, TRUE)
+  Stream(Concat(TLCEval([i \in 1..Len(ps) |-> PartRows(rows, ps[i], desc, filter)])), slicer, IF slicer THEN PoolC(desc) ELSE NoCmp, TRUE)
 
 \* the Lister's range pruner for the pushed-down filter (optimizer newRangePruner,
 \* decided on min/max only): "k >= 2" prunes an object iff 2 > max.
@@ -530,13 +531,13 @@ MergeK(ss, c) ==          \* merge.Op: repeatedly the smallest head, ties to the
           IN <<ss[best][1]>> \o MergeK([ss EXCEPT ![best] = Tail(ss[best])], c)
 
 MergeStreams(sts, c) ==
-  LET ss     == E([i \in 1..Len(sts) |-> sts[i].s])
+  LET ss     == TLCEval([i \in 1..Len(sts) |-> sts[i].s])
       sorted == \A i \in 1..Len(sts) : SortedBy(ss[i], c)
       cross  == \E i \in 1..Len(sts) : \E j \in i+1..Len(sts) : \E a \in 1..Len(ss[i]) : \E b \in 1..Len(ss[j]) : Cmp(c, ss[i][a], ss[j][b]) = 0
       allex  == \A i \in 1..Len(sts) : sts[i].ex
   IN Stream(MergeK(ss, c), sorted /\ allex /\ ~cross, IF sorted THEN c ELSE NoCmp, \A i \in 1..Len(sts) : sts[i].det)
 
-CombineStreams(sts) == Stream(Concat(E([i \in 1..Len(sts) |-> sts[i].s])), FALSE, NoCmp, \A i \in 1..Len(sts) : sts[i].det)
+CombineStreams(sts) == Stream(Concat(TLCEval([i \in 1..Len(sts) |-> sts[i].s])), FALSE, NoCmp, \A i \in 1..Len(sts) : sts[i].det)
 
 \* comparison of a result with the reference
 ClassesEq(s, t, c) == Len(s) = Len(t) /\ \A i \in 1..Len(s) : Cmp(c, s[i], t[i]) = 0
@@ -551,26 +552,26 @@ Mode(seq) == IF seq.ex THEN "exact" ELSE IF seq.by # NoCmp THEN "cls" ELSE "bag"
 \* (TLC evaluates constant definitions once); the state holds the case and
 \* the Lister / Slicer / leg state only.
 DescSet == {d = "desc" : d \in Dirs}
-PlanTab == E([p \in Progs |-> E([d \in DescSet |-> PlanOf(p, d)])])
-RowsTab == E([l \in LayoutSet |-> E([d \in DescSet |-> ObjRows(l, d)])])
-MetaTab == E([l \in LayoutSet |-> E([d \in DescSet |-> Metas(l, d)])])
+PlanTab == TLCEval([p \in Progs |-> TLCEval([d \in DescSet |-> PlanOf(p, d)])])
+RowsTab == TLCEval([l \in LayoutSet |-> TLCEval([d \in DescSet |-> ObjRows(l, d)])])
+MetaTab == TLCEval([l \in LayoutSet |-> TLCEval([d \in DescSet |-> Metas(l, d)])])
 
 \* lister.go initObjectScan: stable sort of the snapshot's objects.  Objects with
 \* identical [min,max] tie (the snapshot is a Go map, so their relative order is
 \* arbitrary); the model takes load order for them -- they always share a partition.
 ListerSort(n, m, d) ==
   \* (no LAMBDA here: TLC does not pre-evaluate constant definitions that contain one)
-  LET rank == E([a \in 1..n |-> 1 + Cardinality({b \in 1..n : ListerLess(d, m[b], m[a]) \/ (~ListerLess(d, m[a], m[b]) /\ b < a)})])
-  IN E([p \in 1..n |-> CHOOSE a \in 1..n : rank[a] = p])
+  LET rank == TLCEval([a \in 1..n |-> 1 + Cardinality({b \in 1..n : ListerLess(d, m[b], m[a]) \/ (~ListerLess(d, m[a], m[b]) /\ b < a)})])
+  IN TLCEval([p \in 1..n |-> CHOOSE a \in 1..n : rank[a] = p])
 \* the Lister order by [layout][desc]; the range pruner of a pushed-down
 \* "k >= 2" then skips the objects whose max is below 2
-LorderTab == E([l \in LayoutSet |-> E([d \in DescSet |-> ListerSort(Len(l), MetaTab[l][d], d)])])
+LorderTab == TLCEval([l \in LayoutSet |-> TLCEval([d \in DescSet |-> ListerSort(Len(l), MetaTab[l][d], d)])])
 PruneOrder(lor, m, wk) == IF wk THEN SelectSeq(lor, LAMBDA o : CmpV(I(2), m[o].mx, TRUE) <= 0) ELSE lor
 
 \* ---------------------------------------------------------------- pure step functions
 \* (shared by the Next relation below and by the trace replay of ParScanTrace.tla)
 ScanState(lor, n) == [lo |-> lor, stash |-> <<>>, smin |-> NONE, smax |-> NONE,
-                      parts |-> E([l \in 1..n |-> <<>>]), done |-> E([l \in 1..n |-> FALSE])]
+                      parts |-> TLCEval([l \in 1..n |-> <<>>]), done |-> TLCEval([l \in 1..n |-> FALSE])]
 ExhaustedS(st) == st.lo = <<>> /\ st.stash = <<>>
 TerminalS(st) == ExhaustedS(st) \/ \A l \in DOMAIN st.done : st.done[l]
 
@@ -579,9 +580,9 @@ LegHeadOf(pl) == IF pl.legs # <<>> /\ Kind(pl.legs[Len(pl.legs)].op) = "head" TH
 \* number of values that reach the lifted head of a leg holding the partitions
 \* ps: the operators in front of it are per-row, only filters drop rows
 HeadFeed(pl, rw, ps) ==
-  LET lf == SelectSeq(E([i \in 1..Len(pl.legs) |-> pl.legs[i].op]), LAMBDA o : Kind(o) = "filter")
+  LET lf == SelectSeq(TLCEval([i \in 1..Len(pl.legs) |-> pl.legs[i].op]), LAMBDA o : Kind(o) = "filter")
       n(o) == Cardinality({j \in 1..Len(rw[o]) : Keep(pl.filter, rw[o][j]) /\ Keep(lf, rw[o][j])})
-  IN SumSeq(Concat(E([i \in 1..Len(ps) |-> E([j \in 1..Len(ps[i]) |-> n(ps[i][j])])])))
+  IN SumSeq(Concat(TLCEval([i \in 1..Len(ps) |-> TLCEval([j \in 1..Len(ps[i]) |-> n(ps[i][j])])])))
 
 \* leg l may pull: it is not done, the source is not drained, and (legs being
 \* interchangeable copies, named in order of first service) leg l-1 was served
@@ -601,11 +602,11 @@ PullStep(pl, m, rw, st, l) ==
 
 LegOutOf(pl, rw, d, ps) == ApplyOps(pl.legs, ScanStream(rw, ps, d, pl.filter, pl.slicer))
 ParResultOf(pl, rw, d, prts) ==
-  LET outs == E([l \in DOMAIN prts |-> LegOutOf(pl, rw, d, prts[l])])
+  LET outs == TLCEval([l \in DOMAIN prts |-> LegOutOf(pl, rw, d, prts[l])])
       fan  == IF pl.fan = "merge" THEN MergeStreams(outs, pl.mc) ELSE CombineStreams(outs)
   IN ApplyOps(pl.tail, fan)
 SeqResultOf(pl, rw, m, lor, d, pg) ==
-  LET ps == IF pl.slicer THEN SlicerAll(m, lor, <<>>, NONE, NONE) ELSE E([i \in 1..Len(lor) |-> <<lor[i]>>])
+  LET ps == IF pl.slicer THEN SlicerAll(m, lor, <<>>, NONE, NONE) ELSE TLCEval([i \in 1..Len(lor) |-> <<lor[i]>>])
       ops == Expand(pg)
   IN ApplyOps(Plain(SubSeq(ops, Len(pl.filter) + 1, Len(ops))), ScanStream(rw, ps, d, pl.filter, pl.slicer))
 
@@ -621,8 +622,8 @@ TaintOf(pl, rw, d, prts) ==
       /\ \E l \in DOMAIN prts : LET o == LegOutOf(pl, rw, d, prts[l]).s IN \E i \in 1..Len(o) : Nullish(Get(o[i], pl.mc.f))
    THEN {"F2"} ELSE {})
 
-RowJson(r) == E([f \in {g \in Fields : r[g].t # "abs"} |-> r[f]])
-RowsJson(s) == E([i \in 1..Len(s) |-> RowJson(s[i])])
+RowJson(r) == TLCEval([f \in {g \in Fields : r[g].t # "abs"} |-> r[f]])
+RowsJson(s) == TLCEval([i \in 1..Len(s) |-> RowJson(s[i])])
 
 VARIABLES
   lay, desc, prog, nleg,   \* the case (constant along a behaviour)
@@ -674,7 +675,7 @@ Handed == UNION {UNION {SeqRange(parts[l][i]) : i \in 1..Len(parts[l])} : l \in 
 \* every object is in exactly one place: still listed, stashed, or in exactly one partition of one leg
 HandedOnce ==
   /\ Handed \cup SeqRange(stash) \cup SeqRange(lo) = AllObjs
-  /\ Len(lo) + Len(stash) + SumSeq(Concat(E([l \in LegSet |-> E([i \in 1..Len(parts[l]) |-> Len(parts[l][i])])]))) = Len(lorder)
+  /\ Len(lo) + Len(stash) + SumSeq(Concat(TLCEval([l \in LegSet |-> TLCEval([i \in 1..Len(parts[l]) |-> Len(parts[l][i])])]))) = Len(lorder)
 
 \* Slicer (checked once per layout and direction, at constant level): consecutive
 \* partitions have disjoint, increasing key spans in pool direction, and the
@@ -686,11 +687,11 @@ SlicerProps(l, d) ==
       rw  == RowsTab[l][d]
       lor == LorderTab[l][d]
       ps  == SlicerAll(m, lor, <<>>, NONE, NONE)
-      sp  == E([i \in 1..Len(ps) |-> SpanOf(m, ps[i])])
+      sp  == TLCEval([i \in 1..Len(ps) |-> SpanOf(m, ps[i])])
   IN /\ \A i \in 1..Len(ps) - 1 :
           IF d THEN CmpV(sp[i].mn, sp[i+1].mx, TRUE) > 0 ELSE CmpV(sp[i].mx, sp[i+1].mn, TRUE) < 0
-     /\ Concat(E([i \in 1..Len(ps) |-> PartRows(rw, ps[i], d, <<>>)]))
-          = StableSort(Concat(E([i \in 1..Len(lor) |-> rw[lor[i]]])), PoolC(d))
+     /\ Concat(TLCEval([i \in 1..Len(ps) |-> PartRows(rw, ps[i], d, <<>>)]))
+          = StableSort(Concat(TLCEval([i \in 1..Len(lor) |-> rw[lor[i]]])), PoolC(d))
      /\ Len(Concat(ps)) = Len(l)
 ASSUME \A l \in LayoutSet : \A d \in DescSet : SlicerProps(l, d)
 
@@ -698,19 +699,19 @@ ASSUME \A l \in LayoutSet : \A d \in DescSet : SlicerProps(l, d)
 \* final counts add up to the number of rows the legs scanned
 CountConserved ==
   (Terminal /\ Exhausted /\ plan.tail # <<>> /\ plan.tail[1].part = "in" /\ AggKind(plan.tail[1].op) = "count") =>
-     LET fin == ApplyOp(plan.tail[1], IF plan.fan = "merge" THEN MergeStreams(E([l \in LegSet |-> LegOut(parts[l])]), plan.mc)
-                                      ELSE CombineStreams(E([l \in LegSet |-> LegOut(parts[l])])))
-     IN SumSeq(E([i \in 1..Len(fin.s) |-> fin.s[i]["a"].n])) = SumSeq(E([l \in LegSet |-> Len(LegInput(parts[l]).s)]))
+     LET fin == ApplyOp(plan.tail[1], IF plan.fan = "merge" THEN MergeStreams(TLCEval([l \in LegSet |-> LegOut(parts[l])]), plan.mc)
+                                      ELSE CombineStreams(TLCEval([l \in LegSet |-> LegOut(parts[l])])))
+     IN SumSeq(TLCEval([i \in 1..Len(fin.s) |-> fin.s[i]["a"].n])) = SumSeq(TLCEval([l \in LegSet |-> Len(LegInput(parts[l]).s)]))
 
 CaseJson(seq, par) ==
-  [lay |-> lay, objs |-> E([i \in 1..Len(lay) |-> RowsJson(rows[i])]),
+  [lay |-> lay, objs |-> TLCEval([i \in 1..Len(lay) |-> RowsJson(rows[i])]),
    desc |-> desc, prog |-> prog, n |-> nleg, plan |-> PlanText(plan), lorder |-> lorder,
-   served |-> E([i \in 1..Len(served) |-> [leg |-> served[i][1], objs |-> served[i][2]]]),
+   served |-> TLCEval([i \in 1..Len(served) |-> [leg |-> served[i][1], objs |-> served[i][2]]]),
    seq |-> [rows |-> RowsJson(seq.s), mode |-> Mode(seq), det |-> seq.det, byf |-> seq.by.f],
    parrows |-> RowsJson(par.s), taint |-> Taint]
 
-Hash == Len(served) + SumSeq(E([i \in 1..Len(served) |-> served[i][1] * i])) + Len(prog) * 7 + Len(lay) * 3 + nleg + (IF desc THEN 1 ELSE 0)
-           + SumSeq(E([i \in 1..Len(lorder) |-> lorder[i] * i])) + SumSeq(E([i \in 1..Len(lay) |-> Len(lay[i]) * i * 5]))
+Hash == Len(served) + SumSeq(TLCEval([i \in 1..Len(served) |-> served[i][1] * i])) + Len(prog) * 7 + Len(lay) * 3 + nleg + (IF desc THEN 1 ELSE 0)
+           + SumSeq(TLCEval([i \in 1..Len(lorder) |-> lorder[i] * i])) + SumSeq(TLCEval([i \in 1..Len(lay) |-> Len(lay[i]) * i * 5]))
 
 \* Checked in every terminal state: the case is printed first (Emit) so that a
 \* counterexample is visible, then the property.
